@@ -25,6 +25,7 @@ func init() {
 			"O6 a merge over a run-time fork count whose ForkNode is nil (meaning the mapped call itself, as the runtime's fallback shows) still yields a prenode: FindRefs adds a Call-derived reference or a function reachable from makePrenodesForBinding handles the nil case. " +
 			"O4 also: every loop over the node's disabling conditions enumerates the references inside each entry (FindRefs), so a condition wrapped by a mapped call still yields its prenode. " +
 			"O2b if a scan of Fork.chunks in the state function starts at a position remembered in a field, every function replacing Fork.chunks clears that field. " +
+			"O7 a function comparing the OutputId of two references also compares their Id. " +
 			"NOT decided: that FindRefs returns every reference, metadata state derivation from real files, job manager scheduling.",
 		Assumptions: commonAssumptions,
 	}
@@ -38,6 +39,7 @@ func runC02(c *an.Ctx) {
 	ruleO5(c)
 	ruleO6(c)
 	ruleO2b(c)
+	ruleO7(c)
 }
 
 // ---------------------------------------------------------------------------
